@@ -4,6 +4,7 @@ import NxModel.DriverUtil
   new <nextId> [<k>] -> ok                      fresh client whose `call_id` counter is <nextId>, started with
                                                 <k> protocol servers (default 0)
   hookret | hookraise -> outs                   the executing `server.logout(self)` returned / raised
+  handlerret <0|1>   -> outs                    the executing `server.handle(...)` raised / returned (the answer is sent)
   xdump              -> xstate pending=[..] cleanup=none|running|returned|raised
   call <0|1>         -> outs                    `request(..., noresponse=<1>)` up to the send
   recv <hex>         -> outs | crash <Err>      one datagram through `RMCMessage.parse` + the loop body
@@ -12,7 +13,10 @@ import NxModel.DriverUtil
   dump               -> state next=.. tasks=.. closed=.. requests=[..] responses=[..] frames=[t:id:ready ..]
   outs = `;`-joined: sent t id | done t body <hex> | done t rmc <code> | done t closed | done t none |
          done t keyerror | set t | warn id | closing t,t,.. | notready t | notask t |
-         logout srv | cleanup-returned | cleanup-raised | nohook   (`-` when empty)
+         logout srv | cleanup-returned | cleanup-raised | nohook |
+         dispatch srv method callid | notimpl protocol callid | answer protocol callid <0|1> | nohandler   (`-` when empty)
+  `recv` of a REQUEST message is the extended op `peerRequest` (the server registered for its protocol, 0x50 + index, is
+  entered, or the NotImplemented answer is sent); on the core machine and the specification it is `recvRequest`.
   A trailing ` SPECDIFF` is appended when the specification machine (run in lock step) emitted
   different observable outputs; ` H-IDS-BROKEN` once the distinct-live-ids hypothesis failed. -/
 open Nx Nx.Rmc Nx.RmcClient
@@ -48,6 +52,10 @@ def showXOut : XOut → String
   | .cleanupReturned => "cleanup-returned"
   | .cleanupRaised => "cleanup-raised"
   | .noHook => "nohook"
+  | .dispatch srv m id => s!"dispatch {srv} {m} {id}"
+  | .notImplemented p id => s!"notimpl {p} {id}"
+  | .answer p id ok => s!"answer {p} {id} {if ok then 1 else 0}"
+  | .noHandler => "nohandler"
 
 def showXOuts (l : List XOut) : String := if l.isEmpty then "-" else ";".intercalate (l.map showXOut)
 
@@ -81,6 +89,18 @@ def applyHook (d : D) (op : XOp) : D × String :=
   let (x', o) := xstep d.x op
   ({ d with x := x' }, showXOuts o)
 
+/-- any extended op: the specification machine runs in lock step on the op's core projection -/
+def applyX (d : D) (op : XOp) : D × String :=
+  match coreOps [op] with
+  | [c] =>
+    let ok := d.hids && distinctLive d.x.core [c]
+    let (x', o) := xstep d.x op
+    let (a', oa) := CallSpec.step d.a c
+    let diff := (coreOuts o).filter Out.observable != oa
+    ({ x := x', a := a', hids := ok },
+     showXOuts o ++ (if diff then " SPECDIFF" else "") ++ (if !ok then " H-IDS-BROKEN" else ""))
+  | _ => applyHook d op
+
 def stepLine (d : D) (line : String) : D × String :=
   match line.splitOn " " with
   | ["new", n] =>
@@ -93,6 +113,8 @@ def stepLine (d : D) (line : String) : D × String :=
     | _, _ => (d, "bad-op")
   | ["hookret"] => applyHook d .hookReturn
   | ["hookraise"] => applyHook d .hookRaise
+  | ["handlerret", b] =>
+    if b = "0" then applyHook d (.handlerEnd false) else if b = "1" then applyHook d (.handlerEnd true) else (d, "bad-op")
   | ["xdump"] => (d, xdump d.x)
   | ["call", b] =>
     if b = "0" then apply d (.call false) else if b = "1" then apply d (.call true) else (d, "bad-op")
@@ -102,8 +124,8 @@ def stepLine (d : D) (line : String) : D × String :=
       match decode data with
       | .error e => (d, "crash " ++ e.name)
       | .ok _ =>
-        match opOfData data with
-        | some op => apply d op
+        match xopOfData data with
+        | some op => applyX d op
         | none => (d, "bad-op")
     | none => (d, "bad-op")
   | ["eof"] => apply d .eof
